@@ -24,7 +24,7 @@
   What is not proved: anything about the compiled C code (tied to the model by the
   correspondence of checks/c14.py); lengths are mathematical integers (the C code uses `int`).
 -/
-import PdshVerif.Hostlist.PrintChars
+import PdshVerif.Hostlist.PrintRound2
 
 namespace PdshVerif.C14
 open PdshVerif.Hostlist PdshVerif.Hostlist.Print
@@ -177,6 +177,83 @@ theorem deranged_verdict (h : HL) (hg : GoodRecords h) (hz : NoNul h.ranges.toLi
   obtain ⟨hw, h1, h2⟩ := derangedStringL_spec n hn h.ranges.toList hg
   exact verdict_of_wrote hn hw h1 h2 (derangedT_no_nul hz)
 
+/-! ### lossless when it fits: the text reads back as the same host sequence -/
+/-- domain of the round trip: every record `RecOK` (well formed; name text free of `[ ] ,` blank tab
+    - `NoMeta` -; single-host names non-empty; names shorter than 1023 bytes, the parser's word buffer
+    (D18); at most 16384 hosts per range record) and at most 10240 ranges per bracket (the parser's
+    limits: a list beyond them is finding F14-BIGRANGE) -/
+structure RoundDom (h : HL) : Prop where
+  recs : ∀ r ∈ h.ranges.toList, RecOK r
+  groups : ∀ g ∈ PrintSpec.groups h.ranges.toList, g.length ≤ Spec.RANGES_LIMIT
+
+theorem RoundDom.good {h : HL} (hd : RoundDom h) : GoodRecords h := fun r hr => (hd.recs r hr).good
+theorem RoundDom.noEmpty {h : HL} (hd : RoundDom h) : NoEmptyName h.ranges.toList :=
+  fun r hr => (hd.recs r hr).nonempty
+theorem RoundDom.noMeta {h : HL} (hd : RoundDom h) : PrintSpec.NoMeta h :=
+  fun r hr => ⟨(hd.recs r hr).chars, (hd.recs r hr).nonempty⟩
+
+/-- COMPRESSED FORM.  Whenever `hostlist_ranged_string` reports a length, the caller's buffer holds
+    the specification's compressed text, and `hostlist_create` (parser model of C01) applied to that
+    text succeeds with a list that denotes exactly the hosts of the printed list, in order, repeats
+    kept -/
+theorem ranged_roundtrip (h : HL) (hd : RoundDom h) (hz : NoNul h.ranges.toList) (n : Nat) (hn : 1 ≤ n)
+    (k : Nat) (hk : (rangedString n h).2 = .ok k) :
+    (rangedString n h).1.text n = some (PrintSpec.rangedText h) ∧
+    ∃ h', create (PrintSpec.rangedText h) = .ok h' ∧ h'.Good ∧ h'.hosts = h.hosts := by
+  constructor
+  · obtain ⟨_, s, hs, hfit, hcut⟩ := ranged_verdict h hd.good hd.noEmpty hz n hn
+    by_cases hf : PrintSpec.Fits (PrintSpec.rangedText h) n
+    · rw [← (hfit hf).2]; exact hs
+    · have := (hcut hf).1
+      simp only [obsOf, hk] at this
+      exact absurd this (by simp)
+  · exact ranged_roundtrip_L h.ranges.toList hd.recs hd.groups
+
+/-- EXPANDED FORM, repaired truncation test: the same for `hostlist_deranged_string` -/
+theorem deranged_roundtrip (h : HL) (hd : RoundDom h) (hz : NoNul h.ranges.toList) (n : Nat) (hn : 1 ≤ n)
+    (k : Nat) (hk : (derangedString true n h).2 = .ok k) :
+    (derangedString true n h).1.text n = some (PrintSpec.derangedText h) ∧
+    ∃ h', create (PrintSpec.derangedText h) = .ok h' ∧ h'.Good ∧ h'.hosts = h.hosts := by
+  constructor
+  · obtain ⟨_, s, hs, hfit, hcut⟩ := deranged_verdict h hd.good hz n hn
+    by_cases hf : PrintSpec.Fits (PrintSpec.derangedText h) n
+    · rw [← (hfit hf).2]; exact hs
+    · have := (hcut hf).1
+      simp only [obsOf, hk] at this
+      exact absurd this (by simp)
+  · exact deranged_roundtrip_L h.ranges.toList hd.good hd.noMeta (fun r hr => (hd.recs r hr).fits)
+
+/-
+  FULL STATEMENT of the round trip without `NoMeta` is FALSE (F14-META): the first-level names of a
+  two-bracket word are single hosts whose names hold brackets.
+-/
+/-- the hosts `hostlist_create` (parser model) reads from a text -/
+def parsedHosts (s : Str) : Option (List String) :=
+  match create s with
+  | .ok h' => some (h'.hosts.map String.ofList)
+  | _ => none
+
+/-- what `hostlist_create("foo[1-2]-[0-1]")` holds -/
+def metaList : HL := ⟨#[HRange.mkSingle "foo1-[0-1]".toList, HRange.mkSingle "foo2-[0-1]".toList], 2⟩
+
+/-- F14-META witness: both forms print `foo1-[0-1],foo2-[0-1]`, which reads back as FOUR hosts -/
+theorem roundtrip_meta_false :
+    GoodRecords metaList ∧
+    PrintSpec.rangedText metaList = "foo1-[0-1],foo2-[0-1]".toList ∧
+    PrintSpec.derangedText metaList = "foo1-[0-1],foo2-[0-1]".toList ∧
+    (rangedString 64 metaList).2 = .ok 21 ∧
+    parsedHosts "foo1-[0-1],foo2-[0-1]".toList = some ["foo1-0", "foo1-1", "foo2-0", "foo2-1"] := by
+  decide
+
+/-- F14-BIGRANGE witness: tail coalescing builds a range record of 20000 hosts; its compressed text
+    `a[1-20000]` fits 11 bytes and is refused by the parser ("too many hosts") -/
+theorem roundtrip_bigrange_false :
+    GoodRecords ⟨#[HRange.mk' ['a'] 1 20000 1], 20000⟩ ∧
+    (rangedString 11 ⟨#[HRange.mk' ['a'] 1 20000 1], 20000⟩).2 = .ok 10 ∧
+    PrintSpec.rangedText ⟨#[HRange.mk' ['a'] 1 20000 1], 20000⟩ = "a[1-20000]".toList ∧
+    create "a[1-20000]".toList = .null ERANGE .tooMany := by
+  decide
+
 /-! ### the two fixed callers in opt.c -/
 /-- `opt_list` (`-q`): nothing is stored outside `wcoll_str[1024]` -/
 theorem optList_ranged_in_bounds (fixed : Bool) (h : HL) :
@@ -210,3 +287,28 @@ theorem listPushHostlist_diverges_iff (h : HL) (hg : GoodRecords h) (hne : NoEmp
     simp
 
 end PdshVerif.C14
+
+/-! non-vacuity: the list `a[1-3,07-09],b5,login` (what `hostlist_create` builds for that text) lies in
+    the domain of every theorem above; its two texts -/
+section Examples
+open PdshVerif.Hostlist PdshVerif.Hostlist.Print PdshVerif.C14
+
+def exampleList : HL :=
+  ⟨#[HRange.mk' ['a'] 1 3 1, HRange.mk' ['a'] 7 9 2, HRange.mk' ['b'] 5 5 1, HRange.mkSingle "login".toList], 8⟩
+
+example : RoundDom exampleList := by
+  refine ⟨?_, by decide⟩
+  intro r hr
+  simp only [exampleList, List.mem_cons, List.not_mem_nil, or_false] at hr
+  rcases hr with rfl | rfl | rfl | rfl <;> exact ⟨by decide, by decide, by decide, by decide, by decide⟩
+
+example : NoNul exampleList.ranges.toList := by
+  intro r hr
+  simp only [exampleList, List.mem_cons, List.not_mem_nil, or_false] at hr
+  rcases hr with rfl | rfl | rfl | rfl <;> decide
+
+example : String.ofList (PrintSpec.rangedText exampleList) = "a[1-3,07-09],b5,login" := by decide
+example : String.ofList (PrintSpec.derangedText exampleList) = "a1,a2,a3,a07,a08,a09,b5,login" := by decide
+example : (rangedString 22 exampleList).2 = .ok 21 ∧ (rangedString 21 exampleList).2 = .trunc := by decide
+example : (rangedString 21 exampleList).1.text 21 = some "a[1-3,07-09],b5,logi".toList := by decide
+end Examples
